@@ -6,6 +6,7 @@
 package main
 
 import (
+	"bytes"
 	"context"
 	"fmt"
 	"os"
@@ -25,6 +26,8 @@ type hspec struct {
 }
 type scenario struct {
 	PreCancel bool    `json:"precancel,omitempty"` // the channel is served with a parent context that has already ended (accepted while Shutdown runs)
+	WriteFail bool    `json:"writefail,omitempty"` // targeted: the k-th transport write fails, an exception handler consumes the exception, further writes follow
+	Kinds     []int   `json:"kinds,omitempty"`     // message type of writer i: 0 []byte, 1 [][]byte, 2 *bytes.Buffer, 3 *strings.Reader
 	ReadFail  bool    `json:"readfail,omitempty"`  // targeted: a codec panics with the transport's (possibly wrapped) read error, nothing else closes the channel
 	Tbl       []hspec `json:"tbl"`
 	Async     int     `json:"async"` // queue size, 0 = sync channel
@@ -122,7 +125,18 @@ func run(sc scenario, choose func(step int, en []*sched.Thread, last *sched.Thre
 		s.Spawn(fmt.Sprintf("writer%d", i), func() {
 			s.Yield("wait-served", func() bool { return served })
 			guard("Channel.Write", func() {
-				if err := ch.Write([]byte{9, byte(i)}); err != nil {
+				var msg interface{} = []byte{9, byte(i)}
+				if i < len(sc.Kinds) {
+					switch sc.Kinds[i] {
+					case 1:
+						msg = [][]byte{{9}, {byte(i)}}
+					case 2:
+						msg = bytes.NewBuffer([]byte{9, byte(i)})
+					case 3:
+						msg = strings.NewReader(string([]byte{9, byte(i)}))
+					}
+				}
+				if err := ch.Write(msg); err != nil {
 					r.WriteErrs = append(r.WriteErrs, err.Error())
 				}
 			})
@@ -273,6 +287,11 @@ func check(sc scenario, r *result, meta *hx.Meta) {
 	if sc.ReadFail && r.CloseErrID != 1 {
 		v("C07", "read-failure-not-closed", fmt.Sprintf("a codec panicked with the transport's non-timeout read error (possibly wrapped) and nothing swallowed it, but the channel was not closed with that error (close error class %d: 1 = the raised error, 3 = the harness' final close)", r.CloseErrID))
 	}
+	for _, p := range r.Parked {
+		if strings.HasSuffix(p, "@w.lock") {
+			v("C07", "write-lock-never-released", "a write call waits for the channel's write lock for ever ("+p+"): an earlier write failed in the transport and left the lock held - the channel is open but no longer usable")
+		}
+	}
 	if r.Spinning {
 		v("C05", "close-never-completes", "the channel never comes to rest: a goroutine polls for ever (Close waiting for a sender flag that is never released); transport closed "+fmt.Sprint(r.TClosed)+" times")
 		return
@@ -320,6 +339,27 @@ func genScenario(rng *hx.Rng, meta *hx.Meta, prop string) scenario {
 		meta.Count("write-failure", "false")
 		return sc
 	}
+	if prop == "C07" && rng.Chance(15) {
+		// "afterwards the channel remains usable unless it was closed": the k-th transport write fails, an
+		// exception handler consumes the exception (plain error: the channel stays open), other writers follow
+		sc := scenario{Reads: 8, WriteFail: true, Writes: 2 + rng.Intn(2), FailW: 1 + rng.Intn(2)}
+		h := hspec{ID: 1, Caps: 1 << uint(probe.KException)}
+		for k := 0; k < 6; k++ {
+			h.Beh[k] = probe.Beh{B: probe.BStop, ID: 10 + k}
+		}
+		sc.Tbl = []hspec{h}
+		for i := 0; i < sc.Writes; i++ {
+			sc.Kinds = append(sc.Kinds, rng.Intn(4))
+		}
+		if rng.Chance(30) {
+			sc.Async = 1 + rng.Intn(3)
+			sc.Until = rng.Bool()
+		}
+		meta.Count("channel", map[bool]string{true: "async", false: "sync"}[sc.Async > 0])
+		meta.Count("closers", "0 (write failure consumed)")
+		meta.Count("write-failure", "true")
+		return sc
+	}
 	sc := scenario{Reads: 1 + rng.Intn(3)}
 	n := 1 + rng.Intn(4)
 	for i := 1; i <= n; i++ {
@@ -357,6 +397,9 @@ func genScenario(rng *hx.Rng, meta *hx.Meta, prop string) scenario {
 	}
 	sc.PreCancel = rng.Chance(12)
 	sc.Writes = rng.Intn(3)
+	for i := 0; i < sc.Writes; i++ {
+		sc.Kinds = append(sc.Kinds, rng.Intn(4))
+	}
 	sc.Triggers = rng.Intn(2)
 	for i, k := 0, rng.Intn(3); i < k; i++ {
 		sc.Closers = append(sc.Closers, 1+i)
